@@ -53,7 +53,7 @@ type Case struct {
 	Tag       string `json:"tag,omitempty"`         // element name for attribute hosts
 }
 
-const rule = "cases = (host construct, type attribute, payload, attribute spelling, registry configuration: embedded minifier absent / recording stub (literal or pattern registered) with a drawn output / failing stub (plain error, *parse.Error at a drawn offset) / the real minifier, other minifiers present or not, surrounding markup); decoy stubs are registered for the media types a wrong default would pick; oracle = commutation law checked through an independent parse of the host output (x/net/html tokenizer, encoding/xml, data URI decoding via the reference call): the stub saw exactly the decoded payload (documented trimming), was chosen by the media type from the type attribute or the documented default, got inline=1 in attribute contexts and for inline SVG, and its output stands at that place correctly re-escaped; absent => content unchanged; failing => the outer call fails with the stub's error, a *parse.Error pointing into the embedded region of the outer document; distinct by hash; non-trivial = payload non-empty and (a stub or real minifier ran or was bypassed) and the host output differs from the input or an error came back"
+const rule = "cases = (host construct, type attribute, payload, attribute spelling, registry configuration: embedded minifier absent / recording stub (literal or pattern registered) with a drawn output / failing stub (plain error, *parse.Error at a drawn offset) / the real minifier, other minifiers present or not, surrounding markup); decoy stubs are registered for the media types a wrong default would pick; for registries of real minifier objects the same host is also run on a registry that has served other documents before (inline <svg>, style and on* attributes, data URIs, calls with inline=1) and must give the same bytes; oracle = commutation law checked through an independent parse of the host output (x/net/html tokenizer, encoding/xml, data URI decoding via the reference call): the stub saw exactly the decoded payload (documented trimming), was chosen by the media type from the type attribute or the documented default, got inline=1 in attribute contexts and for inline SVG, and its output stands at that place correctly re-escaped; absent => content unchanged; failing => the outer call fails with the stub's error, a *parse.Error pointing into the embedded region of the outer document; distinct by hash; non-trivial = payload non-empty and (a stub or real minifier ran or was bypassed) and the host output differs from the input or an error came back"
 
 type call struct {
 	Name   string
@@ -520,6 +520,17 @@ func runHost(s *setup, c Case, hd hostDoc) ([]byte, error) {
 	return mk.Run(host, s.m, []byte(hd.src), nil)
 }
 
+type primer struct {
+	host func() minify.Minifier
+	src  string
+}
+
+var primers = []primer{
+	{func() minify.Minifier { return &mhtml.Minifier{} }, "<p style=\"color : red\" onclick=\" f ( ) \">x<svg width=\"10\" height=\"10\"><style> rect { fill : #00ff00 } </style><rect style=\"fill : blue\" width=\"5\"/></svg><img src=\"data:image/svg+xml,%3Csvg xmlns='http://www.w3.org/2000/svg'%3E%3Cpath d='M 0 0 L 1 1'/%3E%3C/svg%3E\"></p><script> var a = 1 ; </script><style> a { color : #ff0000 } </style>"},
+	{func() minify.Minifier { return &mcss.Minifier{} }, "a { background : url(\"data:image/svg+xml,%3Csvg xmlns='http://www.w3.org/2000/svg'%3E%3C/svg%3E\") }"},
+	{func() minify.Minifier { return &msvg.Minifier{} }, "<svg xmlns=\"http://www.w3.org/2000/svg\"><style> a { fill : red } </style><script> var b = 2 ; </script><rect style=\" fill : blue \" onclick=\" g ( ) \"/></svg>"},
+}
+
 // what the embedded minifier must be given
 func expectedInput(c Case) string {
 	switch c.Host {
@@ -554,6 +565,22 @@ func check(c Case) (changed bool, ran bool, err error) {
 	changed = outS != hd.src || merr != nil
 	show := func(format string, a ...interface{}) error {
 		return fmt.Errorf(format+"\n--- host input:\n%s\n--- host output:\n%s\n--- error: %v\n--- calls: %v", append(a, hd.src, outS, merr, *s.calls)...)
+	}
+	if c.Others || c.Reg == "real" {
+		// the minifier objects a caller registers serve many documents: what one document asked for (inline=1 for an
+		// <svg> element or a style attribute) must not be remembered for the next. The same host on a registry that has
+		// served other documents before gives the same bytes.
+		s2 := build(c)
+		for _, pr := range primers {
+			mk.Run(pr.host(), s2.m, []byte(pr.src), nil)
+		}
+		for _, mt := range []string{"image/svg+xml;inline=1", "text/css;inline=1", "application/javascript;inline=1"} {
+			mk.RunM(s2.m, mt, []byte(map[byte]string{'i': "<svg><rect width=\"1\"/></svg>", 't': "color: red", 'a': "f ( 1 )"}[mt[0]]))
+		}
+		out2, merr2 := runHost(s2, c, hd)
+		if string(out2) != outS || fmt.Sprint(merr2) != fmt.Sprint(merr) {
+			return changed, true, show("the result depends on what the registry served before: after an HTML document with an inline <svg>, style and on* attributes and data URIs, and calls with inline=1, the same host gives\n%s\n(error %v)", out2, merr2)
+		}
 	}
 	if c.Host == "html-data-uri" || c.Host == "css-data-uri" {
 		return checkDataURI(c, hd, s, outS, merr, show)
